@@ -70,7 +70,22 @@ class PollerModel:
         def recv(ex, st, callee, args, fn):
             ev(st, 'recv_timeout', (args[1],))
             return Enum(z3.If(self.recv_ok, z3.IntVal(0), z3.IntVal(1)), {'Ok': Struct([Enum(self.recv_msg, {})]), 'Err': Struct([Enum(self.recv_err, {})])})
-        return [(r'(^|::)clock_gettime_safe$', clock), (r'ChronyOperations>::get_tracking$', get_tracking), (r'ChronyOperations>::is_within_grace_period$', grace),
+        def instant_now(ex, st, callee, args, fn):
+            # std::time::Instant inside the loop (timing a poll for a log line): an opaque, non-decreasing reading of some clock that is
+            # NOT the clock of the segment's timestamps; no relation to the as-of reading is assumed
+            prev = st.mem.get(('env', 'instant_last'))
+            n = ex.fresh('instant_ns')
+            ex.side.append(n >= (prev if prev is not None else 0))
+            st.mem[('env', 'instant_last')] = n
+            return Struct([n])
+
+        def instant_elapsed(ex, st, callee, args, fn):
+            t = ex.deref(st, args[0]) if isinstance(args[0], Ref) else args[0]
+            now = instant_now(ex, st, callee, args, fn).f[0]
+            ex.side.append(now >= t.f[0])
+            return Struct([now - t.f[0]])
+        return [(r'(^|::)Instant::now$', instant_now), (r'(^|::)Instant::elapsed$', instant_elapsed),
+                (r'(^|::)clock_gettime_safe$', clock), (r'ChronyOperations>::get_tracking$', get_tracking), (r'ChronyOperations>::is_within_grace_period$', grace),
                 (r'(^|::)get_phc_error_bound_from_path$', phc), (r'(^|::)DispatchBox(::<.*>)?::send$', send), (r'Receiver(::<.*>)?::recv_timeout$', recv)]
 
     def run(self):
